@@ -252,10 +252,22 @@ def build_pool() -> dict:
     fb4 = _font("FontA", enc("PDFDocEncoding", [66, N("omicron")]))
     fb5 = {"Type": N("Font"), "Subtype": N("Type1"), "BaseFont": N("Helvetica"), "Encoding": enc("WinAnsiEncoding", [66, N("G01"), 65, N("pi")])}
     more_b = _text("F3", 12, 72, 560, b"ABCD") + _text("F4", 12, 72, 520, b"ABCD") + _text("F5", 12, 72, 480, b"ABCD")
+    # an embedded Type 1 program whose clear-text part adopts StandardEncoding and then issues puts: whatever those do to
+    # THIS font, the process-wide StandardEncoding table that "plain" reads afterwards stays as it was
+    fb6 = _font("FontT")
+    t1prog = (b"%!PS-AdobeFont-1.0: FontT 001.000\n11 dict begin\n/FontType 1 def\n/FontName /FontT def\n"
+              b"/Encoding StandardEncoding def\ndup 65 /B put\ndup 67 /bullet put\ncurrentdict end\ncurrentfile eexec\n")
+
+    def _embed(d):
+        fb6["FontDescriptor"] = dict(fb6["FontDescriptor"], FontFile=d.add(Stream({"Length1": len(t1prog), "Length2": 0, "Length3": 0}, t1prog)))
+        return {}
+
     pool["diffB"] = _two_pages(
         {"F1": fb1, "F2": fb2, "F3": fb3, "F4": fb4, "F5": fb5},
         _text("F1", 12, 72, 700, b"ABCD \x80") + _text("F2", 12, 72, 650, b"ABCD\x8a") + more_b,
-        {"F1": fb2, "F2": fb1, "F3": fb3}, _text("F1", 12, 72, 700, b"DCBA") + _text("F2", 11, 72, 640, b"AB") + _text("F3", 12, 72, 560, b"DC"),
+        {"F1": fb2, "F2": fb1, "F3": fb3, "F6": fb6}, _text("F1", 12, 72, 700, b"DCBA") + _text("F2", 11, 72, 640, b"AB") + _text("F3", 12, 72, 560, b"DC")
+        + _text("F6", 12, 72, 440, b"ABCA"),
+        res1_extra=_embed,
     )
     # -- the plain users of the shared tables (would show any pollution): every table through every way of naming it
     pw, ps, ph, pm = _font("FontA", N("WinAnsiEncoding")), _font("FontA"), \
